@@ -148,17 +148,9 @@ func (c *connection) write() {
 			if ok {
 				c.onActiveEvent(activeMsg, record)
 			}
-		case msg, ok := <-c.activeMsgCompleteChan: // 平台主动下发的完成情况
+		case msg, ok := <-c.activeMsgCompleteChan: // 平台主动下发的完成情况(超时协程发来的)
 			if ok {
-				seq := msg.ExtensionFields.PlatformSeq
-				if v, ok := record[seq]; ok {
-					msg.ExtensionFields.PlatformData = v.ExtensionFields.Data
-					msg.ExtensionFields.PlatformCommand = v.Command
-					msg.ExtensionFields.ActiveSend = true
-					c.onWriteExecutionEvent(msg)
-					v.replyChan <- msg
-					delete(record, seq)
-				}
+				c.onActiveCompleteEvent(record, msg)
 			}
 		case subPackMsg, ok := <-c.reissuePackChan: // 分包补传的
 			if ok {
@@ -237,6 +229,21 @@ func (c *connection) subPackReplyEvent(msg *Message) {
 	c.onWriteExecutionEvent(msg)
 }
 
+// onActiveCompleteEvent 平台主动下发的请求有了结果(终端应答 写失败 超时) 回复调用方并删除等待记录
+// 只在写协程里执行 写协程自己产生的结果直接调用这里 不能再发到activeMsgCompleteChan
+// 否则缓冲被超时协程占满的时候 写协程会阻塞在自己才会消费的通道上(死锁)
+func (c *connection) onActiveCompleteEvent(record map[uint16]*ActiveMessage, msg *Message) {
+	seq := msg.ExtensionFields.PlatformSeq
+	if v, ok := record[seq]; ok {
+		msg.ExtensionFields.PlatformData = v.ExtensionFields.Data
+		msg.ExtensionFields.PlatformCommand = v.Command
+		msg.ExtensionFields.ActiveSend = true
+		c.onWriteExecutionEvent(msg)
+		v.replyChan <- msg
+		delete(record, seq)
+	}
+}
+
 func (c *connection) onActiveEvent(activeMsg *ActiveMessage, record map[uint16]*ActiveMessage) {
 	header := activeMsg.header
 	seq := c.curSeq()
@@ -258,7 +265,7 @@ func (c *connection) onActiveEvent(activeMsg *ActiveMessage, record map[uint16]*
 	}
 	if err != nil {
 		replyMsg.ExtensionFields.Err = errors.Join(ErrWriteDataFail, err)
-		c.activeMsgCompleteChan <- replyMsg
+		c.onActiveCompleteEvent(record, replyMsg)
 	} else if activeMsg.OverTimeDuration >= 0 {
 		duration := 3 * time.Second
 		if activeMsg.OverTimeDuration > 0 {
@@ -336,7 +343,7 @@ func (c *connection) onActiveRespondEvent(record map[uint16]*ActiveMessage, msg 
 		for k := range record {
 			if tmp.HasRespondFunc(k) {
 				msg.ExtensionFields.PlatformSeq = k
-				c.activeMsgCompleteChan <- msg
+				c.onActiveCompleteEvent(record, msg)
 				return true
 			}
 		}
